@@ -4,6 +4,7 @@ C13 — machine-checked witnesses of the two defects found on the pinned tree (b
 -/
 import Compio.Model.Frame
 import Compio.Model.Cmsg
+import Compio.Model.Sink
 
 namespace Compio.Cex.C13
 open Compio Compio.Frame Compio.Cmsg
@@ -31,5 +32,23 @@ theorem f7b_unfixed_reads_past_buffer :
 
 theorem f7b_fixed_reports_small :
     decodeData ([18, 0, 0, 0, 0, 0, 0, 0, 1, 0, 0, 0, 2, 0, 0, 0] ++ [7, 9]) 0 4 = .small := by decide
+
+/-- F130: as found, `poll_flush` on a sink whose write is in flight (`SinkExt::send` = `feed` + `flush`)
+answered `Ready` as soon as the write completed, without ever flushing the writer: the frame stays in
+the writer's buffer although the sink reported it flushed. -/
+theorem f130_unfixed_flush_skips_writer_flush :
+    let r := Sink.run Sink.stepUnfixed {} [.ready 0, .send [0, 0, 0, 1, 7], .flush 0]
+    r.2 = [.ready, .ready, .ready] ∧ r.1.io.flushes = 0 ∧ r.1.io.delivered = [] ∧
+      r.1.io.buffered = [0, 0, 0, 1, 7] := by decide
+
+/-- F130: as found, `poll_close` after `feed` answered `Ready` without shutting the writer down -/
+theorem f130_unfixed_close_skips_shutdown :
+    let r := Sink.run Sink.stepUnfixed {} [.ready 0, .send [0, 0, 0, 1, 7], .close 0]
+    r.2 = [.ready, .ready, .ready] ∧ r.1.io.shutdowns = 0 ∧ r.1.io.delivered = [] := by decide
+
+/-- ... and the repaired entry points deliver on the same scripts -/
+theorem f130_fixed_delivers :
+    (Sink.run Sink.step {} [.ready 0, .send [0, 0, 0, 1, 7], .flush 0]).1.io.delivered = [0, 0, 0, 1, 7] ∧
+    (Sink.run Sink.step {} [.ready 0, .send [0, 0, 0, 1, 7], .close 0]).1.io.shutdowns = 1 := by decide
 
 end Compio.Cex.C13
